@@ -37,3 +37,10 @@ class Echo(Command):
 
     def execute(self, **kwargs):
         return ("echo", self.result_name, _norm({k: v for k, v in kwargs.items()}))
+
+
+class EchoX(Echo):
+    """The same command accepting further, undeclared arguments (handed over as they are)."""
+    inputs = dict(Echo.inputs)
+    output = Echo.output
+    allow_extra_inputs = True
